@@ -18,8 +18,11 @@ func paramOptions(sel int) *pql.CompileOptions {
 		return &pql.CompileOptions{Parameters: map[string]string{}}
 	case 3:
 		return &pql.CompileOptions{Parameters: map[string]string{"a": "$1", "T": "{t:String}"}}
-	default:
+	case 4:
 		return &pql.CompileOptions{Parameters: map[string]string{"a": "?", "$left": "?", "true": "0", "count": "c", "b": ""}}
+	default:
+		// empty and odd texts for the names every vocabulary has
+		return &pql.CompileOptions{Parameters: map[string]string{"a": "", "T": "", "f": "-"}}
 	}
 }
 
@@ -50,7 +53,7 @@ func Entry(src string, mode int) {
 	sel := 0
 	if err == nil {
 		// parameters can only matter once the source parses
-		sel = verif.Concrete(verif.IntRange(0, 5))
+		sel = verif.Concrete(verif.IntRange(0, 6))
 	}
 	sql, cerr := paramOptions(sel).Compile(src)
 	if cerr == nil {
@@ -140,7 +143,7 @@ func rep(dst []string, n int, lex ...string) []string {
 }
 
 // DeepFamilies is the number of program families of H_C12deep.
-const DeepFamilies = 28
+const DeepFamilies = 32
 
 // deepProgram returns family f at size n as a lexeme list; the families nest or
 // repeat one construct n times (valid and invalid ones).
@@ -242,6 +245,22 @@ func deepProgram(f, n int) []string {
 		p = append(p, "f", "(", "a")
 		p = rep(p, n, ",", "f", "(", "f", "(", "a", ")", ",", "1", ")")
 		p = append(p, ")")
+	case 28: // erroneous operand inside parentheses, each level indexed
+		p = rep(p, n, "(")
+		p = append(p, ".", "a")
+		p = rep(p, n, ")", "[", "1", "]")
+	case 29: // erroneous argument inside calls, each level indexed
+		p = rep(p, n, "f", "(")
+		p = append(p, ".", "a")
+		p = rep(p, n, ")", "[", "1", "]")
+	case 30: // two operands without operator at the core of nested parentheses
+		p = rep(p, n, "(")
+		p = append(p, "a", "a")
+		p = rep(p, n, ")")
+	case 31: // erroneous value at the core of nested in-lists, each level followed by an operator
+		p = rep(p, n, "a", "in", "(")
+		p = append(p, ".", "1")
+		p = rep(p, n, ")", "+", "1")
 	default:
 		panic("unknown deep family")
 	}
